@@ -176,10 +176,76 @@ func forcedScns(r *rand.Rand) []*Scn {
 		{Kind: "force-order", N: 6, M: 2, Dur: [][]int{{50}, {2}, {2}, {2}, {2}, {2}}, Steps: []Step{
 			{At: 0, Th: 0, Op: "q", T: 0}, {At: j(8), Th: 0, Op: "q", T: 1}, {At: j(12), Th: 0, Op: "p", T: 2}, {At: j(16), Th: 0, Op: "a", T: 3},
 			{At: j(20), Th: 0, Op: "p", T: 4}, {At: j(24), Th: 0, Op: "a", T: 5}, {At: j(28), Th: 0, Op: "q", T: 2}}},
+		// a task waiting in the queue behind a running one is given a scheduled time
+		{Kind: "force-queued-then-scheduled", N: 2, M: 1, Dur: [][]int{{80}, {0}}, Steps: []Step{
+			{At: 0, Th: 0, Op: "q", T: 0}, {At: j(5), Th: 0, Op: "q", T: 1}, {At: j(10), Th: 0, Op: "s", T: 1, Arg: 20}}},
+		// a task without max delay is scheduled while another task runs
+		{Kind: "force-scheduled-no-max-delay", N: 2, M: 1, Dur: [][]int{{80}, {0}}, Steps: []Step{
+			{At: 0, Th: 0, Op: "q", T: 0}, {At: j(3), Th: 0, Op: "d", T: 1, Arg: 0}, {At: j(6), Th: 0, Op: "s", T: 1, Arg: 20}}},
+		// the timer was armed for a withdrawn entry; the next entry is the max-delay entry of a waiting task
+		{Kind: "force-stale-timer-queued", N: 3, M: 1, Dur: [][]int{{200}, {0}, {0}}, Steps: []Step{
+			{At: 0, Th: 0, Op: "a", T: 0}, {At: j(4), Th: 0, Op: "d", T: 1, Arg: 20000000}, {At: j(7), Th: 0, Op: "q", T: 1},
+			{At: j(12), Th: 0, Op: "s", T: 2, Arg: 80}, {At: j(40), Th: 0, Op: "z", T: 2}}},
 		// self re-queue and self re-schedule from inside the function
 		{Kind: "force-self-requeue", N: 2, M: 1, Dur: [][]int{{5, 5, 0}, {3}}, Steps: []Step{{At: 0, Th: 0, Op: "q", T: 0}, {At: j(2), Th: 0, Op: "q", T: 1}},
 			InFn: []InFn{{T: 0, Run: 0, Op: "q", Target: 0}, {T: 0, Run: 1, Op: "s", Target: 0, Arg: 30, Late: true}}},
 	}
+}
+
+// staleTimerScn: a long-running task occupies the queue, one to three tasks with max delays of varying size
+// (from shorter than the run time, so that the delay expires while they wait, to the default) wait behind
+// it, and one or two further tasks put an early entry into the schedule that is withdrawn, cancelled,
+// re-scheduled or replaced before its time. The schedule handler's timer was armed for that entry: when it
+// fires, the first entry of the schedule is the max-delay entry of a waiting task that is not yet due (or
+// has just become due). Covers the not-due branch of the fetch section for both kinds of entries.
+func staleTimerScn(r *rand.Rand) *Scn {
+	s := &Scn{Kind: "stale-timer-queued", M: 1 + r.Intn(2)}
+	long := pick(r, 120, 180, 250)
+	nb, na := 1+r.Intn(3), 1+r.Intn(2)
+	s.N = 1 + nb + na
+	s.Dur = append(s.Dur, []int{long, 0})
+	at := 0
+	add := func(gap int, op string, t, arg int) {
+		at += gap
+		s.Steps = append(s.Steps, Step{At: at, Th: 0, Op: op, T: t, Arg: arg})
+	}
+	if r.Intn(2) == 0 {
+		add(0, "d", 0, 0)
+	}
+	add(0, string("qpa"[r.Intn(3)]), 0, 0)
+	at = 4
+	for i := 1; i <= nb; i++ {
+		s.Dur = append(s.Dur, []int{pick(r, 0, 0, 2, 5)})
+		if md := pick(r, -1, 40000, 90000, 150000, 400000, 2000000, 20000000); md >= 0 {
+			add(r.Intn(3), "d", i, md) // microseconds
+		}
+		add(r.Intn(3), string("qqpa"[r.Intn(4)]), i, 0)
+	}
+	at0 := at + 2
+	for j := 0; j < na; j++ {
+		a := 1 + nb + j
+		s.Dur = append(s.Dur, []int{pick(r, 0, 1, 3)})
+		at = at0 + r.Intn(4)
+		x := pick(r, 50, 70, 90, 110) // fires while task 0 still runs
+		if r.Intn(4) == 0 {
+			add(0, "d", a, pick(r, 0, 30000))
+		}
+		add(1, "s", a, x)
+		switch r.Intn(6) {
+		case 0, 1, 2: // withdrawn: nothing re-arms the timer
+			add(15+r.Intn(25), "z", a, 0)
+		case 3: // cancelled: the entry stays
+			add(15+r.Intn(25), "c", a, 0)
+		case 4: // moved far behind
+			add(15+r.Intn(25), "s", a, pick(r, 300, 400))
+		default: // queued: the max-delay entry replaces the scheduled time
+			add(15+r.Intn(25), string("qa"[r.Intn(2)]), a, 0)
+		}
+	}
+	if r.Intn(3) == 0 {
+		s.Yields = append(s.Yields, Yield{Point: "run-enter", Role: "sh", T: -1, K: r.Intn(2), Ms: pick(r, 1, 5, 20)})
+	}
+	return s
 }
 
 // misuseScn: the error paths and the glue — calls on cancelled and inert tasks, Schedule(zero) without a
